@@ -385,7 +385,7 @@ func init() {
 	// stored witness of known finding D2: a failing block and plan-level PostChecks that therefore never run
 	d2 := &PlanSpec{Post: &GroupSpec{Actions: []ActSpec{{Tag: "d2.post"}}},
 		Blocks: []BlockSpec{{Conc: 1, Seqs: []SeqSpec{{Actions: []ActSpec{{Tag: "d2.a", Script: []Outcome{{Resp: "nil", Err: "permanent"}}}}}}}}}
-	campaigns["C04"] = (&engineCampaign{prop: "C04", corpus: []*PlanSpec{d2},
+	campaigns["C04"] = (&engineCampaign{prop: "C04", corpus: []*PlanSpec{d2}, after: c04Concurrent,
 		rule:  "random plans incl. continuous checks (passing, or failing at run k) and failing actions; the plan returned by Wait is checked against the consistency rules R1-R8, the trace for quiescence at release and a settle window for stability; exact comparison with Model/Engine on schedule-independent configurations; non-trivial = >=1 failing action or a cont group; distinct by spec",
 		quick: 350, thorough: 10000,
 		settle: 3 * time.Millisecond,
